@@ -34,7 +34,7 @@ def classify(detail):
 
 
 def run_model(ctx, path):
-    p = subprocess.run(["bash", "-c", f"ulimit -s unlimited; exec {vlib.MODEL} c06"], stdin=open(path),
+    p = vlib.srun(["bash", "-c", f"ulimit -s unlimited; exec {vlib.MODEL} c06"], stdin=open(path),
                        stdout=subprocess.PIPE, stderr=subprocess.PIPE, text=True, timeout=3000,
                        env=dict(os.environ, GV_C06_CAP="600" if ctx.tier == "quick" else "1500"))
     res = {}
